@@ -12,8 +12,15 @@ RULE = ("per case a pool of 1-8/10 distinct timestamped messages (balances incl.
         "exchange times from palettes with 0, negative offsets, ties, 999/1000/1001 ms and gaps of hours / days (12 h crosses midnight, so the later instant has the smaller time of day); "
         "balances 0, free = total, free > total, negative, 1e-8, 1e12; trade prices 0 / 1e-8 / 1e12 / negative / 0.1 / six decimals with side Buy and Sell and amounts 0 / 2.5; "
         "ONE-SIDED tops of book (bid only / ask only, written `-1 -1`), amounts 0, prices 1e-8 / 1e12; open reports with filled in {0, q/2, q, q+2, q-1e-8}; market events that feed no "
-        "register (candle, liquidation, L2 snapshot / update: op `mkt`); EMPTY full account snapshots; up to three instruments. Distinct by SHA-1 of op lines; non-trivial when an observed register changes at least once")
+        "register (candle, liquidation, L2 snapshot / update: op `mkt`); EMPTY full account snapshots; up to three instruments. "
+        "CONFIGURATION family (N/6 + 2 cases, own PRNG stream, ids cfg<n>; configuration-shape audit): `init n x (B a total free)*` - 1-4 instruments spread over 1-3 exchanges (instrument i on exchange i % x, so `usdt` is "
+        "one register PER exchange, global instrument index != position on the exchange, events carry other exchanges than the first) and a starting state with INITIAL balances for some assets "
+        "(EngineStateBuilder::balances, stamped with the engine start time = exchange time 0), then the usual pool (times -2..3: older than, equal to and newer than the initial balances; full snapshots of one exchange) delivered as a permutation with repetition. Distinct by SHA-1 of op lines; non-trivial when an observed register changes at least once")
 ASSUMPTIONS = [
+    "set-up shapes (configuration-shape audit): an initial balance given to EngineStateBuilder::balances is read as a balance message delivered with the engine start time (`time_engine_start`, exchange time 0 in the cases): "
+    "it takes part in 'the greatest exchange timestamp delivered so far' like any other; assets without an initial balance start with nothing delivered. One register per (exchange, asset). `init n x ...` requires 1 <= x <= min(n, 5) "
+    "and distinct, in-range assets (otherwise `bad-op` on all three sides; the builder's HashMap would keep an unspecified one of two duplicates). Not varied: instrument kinds other than spot, "
+    "custom InstrumentData / GlobalData, delivery through Engine::process instead of EngineState::update_from_account / update_from_market",
     "L1 events carry last_update_time = time_exchange (the guard compares the event time but stores the payload's own time); otherwise modelled but outside the spec",
     "trade prices are finite (Decimal::from_f64 succeeds; 0, negative, 1e-8 and 1e12 ARE delivered); exchange times are after the Unix epoch (the default OrderBookL1 carries the epoch timestamp; "
     "times are written relative to t0 = 2020-09-13T12:26:40Z, so 0 and negative offsets ARE delivered)",
